@@ -19,12 +19,15 @@ func main() {
 	}
 	r := hx.NewRng(run.Seed).Fork() // Fork: seeds n and n+1 would otherwise be the same stream shifted by one draw
 	meshgen.FixedCases(run)
+	meshgen.Tiles(run, r.Fork(), run.Tier == "thorough") // sizes past internal block limits: every local operation once
 	kinds := append(append([]string{}, meshgen.ExactOps...), meshgen.FrameOps...)
 	// the index-remapping operations get twice the weight of the others
 	kinds = append(kinds, "append", "weld", "split", "filter", "remove_unref", "remove_null", "crop", "repeat", "unweld", "slice")
 	for len(run.Cases) < run.N {
 		if r.Chance(1, 8) {
 			meshgen.Law(run, r)
+		} else if r.Chance(1, 20) {
+			meshgen.Persist(run, r, kinds) // retained results re-read after later operations on the same values
 		} else {
 			meshgen.Chain(run, r, kinds, 4)
 		}
